@@ -91,7 +91,7 @@ INJECT = {
     "hashi.rs": ("src/hash.rs", "verif_h", "hash::verif_h", "verif/hashi.rs"),
 }
 
-SIMD_OVERFLOW_RE = re.compile(r"attempt to compute `simd_(add|sub|mul)` which would overflow")
+SIMD_OVERFLOW_RE = re.compile(r"attempt to compute `?simd_(add|sub|mul)`? which would overflow")
 
 
 def log(*a):
@@ -113,7 +113,7 @@ class Harness:
         self.assume = d.get("assume", "")
         self.stubs = d.get("stubs", "")
         self.note = d.get("note", "")
-        self.native = d.get("native", "same")  # how the native replay decides
+        self.native = d.get("native", "")  # optional hand-written native confirmation test
         if self.file in INJECT:
             self.modpath = INJECT[self.file][2]
         else:
@@ -296,7 +296,7 @@ def parse_kani_output(text, fulls):
             r.status = "FAILED"
         if re.search(r"timed out|CBMC timed out|Timeout", r.raw) and r.status != "SUCCESSFUL":
             r.status = "TIMEOUT"
-        if re.search(r"Status: ERROR|out of memory|bad_alloc|CBMC crashed|std::bad_alloc", r.raw):
+        if re.search(r"Status: ERROR|out of memory|bad_alloc|CBMC crashed|CBMC failed|std::bad_alloc", r.raw):
             r.status = "ERROR"
 
     block = None
@@ -424,10 +424,28 @@ def native_replay(crate_dir, cfg, h, logdir):
            "--harness-timeout", "%ds" % (h.timeout * 2), "--output-format", "terse",
            "--exact", "--harness", h.full]
     logfile = os.path.join(logdir, "playback-gen-%s-%s.log" % (cfg, h.name))
-    run_cmd(cmd, crate_dir, h.timeout * 2 + 300, logfile)
-    text = open(logfile, errors="replace").read()
-    tests = [t for t in extract_playback_tests(text, h.name) if t[0] != "cover"]
+    if h.native:
+        tests = []   # trace too large for Kani's playback generator: go straight to the native test
+    else:
+        run_cmd(cmd, crate_dir, h.timeout * 2 + 300, logfile)
+        text = open(logfile, errors="replace").read()
+        tests = [t for t in extract_playback_tests(text, h.name) if t[0] != "cover"]
     if not tests:
+        if h.native:
+            # hand-written native confirmation (same checking function, concrete inputs)
+            cmd = ["cargo", "kani", "playback", "-Z", "concrete-playback", "--lib",
+                   "--no-default-features", "--features", features_of(cfg),
+                   "--", h.native, "--test-threads", "1"]
+            logfile2 = os.path.join(logdir, "native-run-%s-%s.log" % (cfg, h.name))
+            rc, to, _ = run_cmd(cmd, crate_dir, 1200, logfile2, limit=False)
+            out = open(logfile2, errors="replace").read()
+            failed = re.findall(r"^test (\S+) \.\.\. FAILED", out, re.M)
+            panics = re.findall(r"panicked at ([^\n]*)\n([^\n]*)", out)
+            return bool(failed), {"tests": [], "native_test": h.native,
+                                  "native": [{"rc": rc, "failed": failed,
+                                              "panics": [" ".join(p) for p in panics][:6]}],
+                                  "note": "kani produced no concrete playback test; "
+                                          "hand-written native confirmation used"}
         return False, {"error": "kani produced no concrete playback test", "log": logfile}
     hfile = os.path.join(crate_dir, "src", "verif", h.file)
     with open(hfile, "a") as f:
